@@ -9,7 +9,7 @@
    stated hypotheses on the lim/low numbering (Proofs/OptFeasible.v) and checked per instance by the
    correspondence. *)
 From Coq Require Import List QArith.
-From Autog Require Import Graph Phase2 Phase4 Positioners SinkColoringProofs.
+From Autog Require Import Graph Phase2 Phase4 Layout Check Positioners SinkColoringProofs Shift.
 Import ListNotations.
 Local Open Scope Q_scope.
 
@@ -70,3 +70,15 @@ Print Assumptions C04_bands_stacked.
 Theorem C04_band_offsets : forall sp ls k, ysum sp ls (S k) = ysum sp ls k + l_h (nth k ls layer0) + sp.
 Proof. exact ysum_S. Qed.
 Print Assumptions C04_band_offsets.
+
+(* between connected components: component k is shifted by shift_k = sum over the earlier components of
+   (rightmost x + NodeSpacing); nodes of different components are at least NodeSpacing apart and all x >= 0 *)
+Theorem C04_components_are_separated : forall o gs ns es,
+  collect_all o gs 0 = (ns, es) -> 0 <= o_node_spacing o -> (forall g, In g gs -> comp_ok g) ->
+  ns = concat (map (comp_nodes o gs 0) (seq 0 (length gs))) /\
+  (forall i j a b, (i < j < length gs)%nat ->
+     In a (comp_nodes o gs 0 i) -> In b (comp_nodes o gs 0 j) ->
+     on_x a + on_w a + o_node_spacing o <= on_x b) /\
+  (forall a, In a ns -> 0 <= on_x a).
+Proof. exact collect_all_separated. Qed.
+Print Assumptions C04_components_are_separated.
